@@ -9,15 +9,15 @@ GEN = os.path.join(ROOT, "coq", "gen", "C19Tables.v")
 SPEC = dict(
     id="C19",
     bin="c19",
-    cases_quick=1,        # rounds = 1 + n/1500; one round = (not restarted, restarted) x 21 instructions x 26 callers x (signed, unsigned)
+    cases_quick=1,        # rounds = 1 + n/1500; one round = (not restarted, restarted) x 25 instructions x 26 callers x (signed, unsigned)
     cases_thorough=6000,
     cases_search=1,
     release_too=False,
     level="proof",
     coq_dirs=["lib", "gen/C19Tables.v", "C19"],
-    technique="access table of all 184 entrypoints of the store/treasury/timelock/competition/liquidity-provider programs REGENERATED from the Rust source on every check (translate/c19.py: #[access_control] expression resolved through the Authenticate helpers and role constants, Context<T> accounts struct with Signer/has_one/constraint/seeds, Authentication impls, authentication calls in the delegated handler, roles named in doc comments) + hand-written policy table (coq/C19/Policy.v, one row per instruction) + Coq theorem every_instruction_guarded decided by vm_compute over the regenerated table + generic dispatcher theorems (reject_unchanged etc.) + dynamic part: the real gmsol_store::entry invoked in-process (syscall stubs) for 21 store-only instructions x 26 callers x signed/unsigned x restarted/not",
+    technique="access table of all 184 entrypoints of the store/treasury/timelock/competition/liquidity-provider programs REGENERATED from the Rust source on every check (translate/c19.py: #[access_control] expression resolved through the Authenticate helpers and role constants, Context<T> accounts struct with Signer/has_one/constraint/seeds, Authentication impls, authentication calls in the delegated handler, roles named in doc comments) + hand-written policy table (coq/C19/Policy.v, one row per instruction) + Coq theorem every_instruction_guarded decided by vm_compute over the regenerated table + generic dispatcher theorems (reject_unchanged etc.) + dynamic part: the real gmsol_store::entry invoked in-process (syscall stubs) for 25 store-only instructions x 26 callers x signed/unsigned x restarted/not",
     text="Every entrypoint has a policy row and its source implements it (exact role guard on a Signer, or the listed ownership evidence and no role guard); the role installed is one the documentation names; in the dispatcher model a call whose guard fails returns the state unchanged for any handler body; on the real code, for the reachable instructions: accepted only with the documented privilege and signature, accepted with it, rejection leaves every account byte untouched.",
-    level_note="PARTIAL dynamic coverage: 21 of 184 instructions are executed (store roles/config/features/market flags/market-config/authority and receiver hand-over/buffer authority); the other 163 (orders, deposits, GLV, GT, oracle, treasury, timelock, competition, liquidity-provider) need token / oracle / CPI account sets and are covered by the static table theorem only. Static part trusts: Anchor's macro semantics (account constraints, then #[access_control], then the body; Signer check), the regex translator (shape-specific, fails hard), and that account constraints named as evidence mean what they say. Transaction atomicity on failure is the runtime's (modelled in the harness and in exec); additionally observed: no reachable instruction writes before rejecting. CpiAuthenticate (treasury/timelock) is checked statically only.",
+    level_note="PARTIAL dynamic coverage: 25 of 184 instructions are executed (store roles/config/features/market flags/market-config/GT factors/token map pointer/oracle clear/authority and receiver hand-over/buffer authority); the other 159 (orders, deposits, GLV, GT, oracle, treasury, timelock, competition, liquidity-provider) need token / oracle / CPI account sets and are covered by the static table theorem only. Static part trusts: Anchor's macro semantics (account constraints, then #[access_control], then the body; Signer check), the regex translator (shape-specific, fails hard), and that account constraints named as evidence mean what they say. Transaction atomicity on failure is the runtime's (modelled in the harness and in exec); additionally observed: no reachable instruction writes before rejecting. CpiAuthenticate (treasury/timelock) is checked statically only.",
     design_ref="DESIGN.md section 6, C19",
     explanation="A case is one real entrypoint call: Access prog name caller signed is_admin roles needs_owner is_owner restarted -> ok code touched_on_reject unchanged.",
     trusted_base=["translate/c19.py + translate/rustlite.py", "Anchor 0.31 macro expansion order and constraint semantics", "in-process mini runtime harness/src/g7rt.rs (AccountInfo construction, rollback on error, Clock/LastRestartSlot stubs, CPI swallowed)"],
